@@ -212,6 +212,9 @@ def dense(f, spacing, scale=None, is_integral=False, include_interest_point=Fals
     '''
     if scale is None:
         scale = np.sqrt(spacing)
+    if not (np.isfinite(scale) and scale >= 1e-3) or not spacing >= 1:
+        # the native descriptor code sizes its sampling windows from the scale
+        raise ValueError('mahotas.features.surf.dense: spacing must be at least 1 and scale a positive (finite, non-degenerate) number')
     s0,s1 = f.shape
     x = np.arange(int(spacing/2), s0, int(spacing))
     y = np.arange(int(spacing/2), s1, int(spacing))
